@@ -36,7 +36,7 @@ func (Prop) Describe() core.Description {
 		Level: "exploration",
 		Rule: "one run = one seeded history of 10-200 operations by a single caller on one receiver per type (date, roman, sem, size, uu): records written by the real marshalers, read through a fault-injecting read path " +
 			"(truncate, bitflip, bytesub, insert, delete, doubled, pad-over-limit, empty, foreign, caseflip, space), decoded by the real UnmarshalText/UnmarshalJSON/UnmarshalBinary/Scan/json.Unmarshal or function-level parsers in four instantiations; " +
-			"Parser-seam error injection, MaxInputLength changes mid-history, buffer reuse with scribbling. Invariants after every step: A failure atomicity against the reference model, B input immutability, C no aliasing after scribble, D string/bytes agreement. " +
+			"Parser-seam error injection, MaxInputLength changes mid-history, buffer reuse with scribbling. Invariants after every step: A failure atomicity against the reference model, B input immutability, C no aliasing after scribble, D string/bytes agreement, H same content under the same configuration gives the same outcome throughout a history (no state kept from earlier calls or buffers). " +
 			"The first third of the runs injects no faults. A history is non-trivial if it contains a failing call on a receiver holding a non-zero value decoded by an earlier successful call of the same history; distinct = distinct hashes of the (type, entry, fault, stub, prior state, outcome) sequences of its calls",
 		Assumptions: []string{
 			"Go's == on the five value types is the notion of 'exactly as it was' (comparable structs/integers; Ver strings by content, aliasing caught separately by C)",
@@ -49,7 +49,7 @@ func (Prop) Describe() core.Description {
 		Notes: map[string]string{
 			"sim_time_note": "C17 has no clock in it; sim_time_ns is 0 by construction",
 		},
-		RequiredProbesQuick: []string{"fail_after_success", "success_after_fail", "stub_error_with_data", "too_long_rejected", "scribble_then_check", "named_type_calls", "clean_mode_runs"},
+		RequiredProbesQuick: []string{"fail_after_success", "success_after_fail", "stub_error_with_data", "too_long_rejected", "scribble_then_check", "named_type_calls", "clean_mode_runs", "same_content_parsed_again", "reparse_after_scribble", "pair_related_arguments"},
 		RequiredProbes:      []string{"fail_after_success_date", "fail_after_success_roman", "fail_after_success_sem", "fail_after_success_size", "fail_after_success_uu", "scan_fail_after_success", "binary_fail_after_success"},
 	}
 }
@@ -147,6 +147,12 @@ func (b *buffer) canaryIntact() bool {
 	return true
 }
 
+type memoEntry struct {
+	val     interface{}
+	errText string
+	step    int
+}
+
 type bagItem struct {
 	val  interface{}
 	copy interface{}
@@ -173,11 +179,19 @@ type hist struct {
 	prov      [NumTypes]int
 	failedYet [NumTypes]bool
 
+	memo  map[string]memoEntry // H: outcome of a function-level parser for (entry, rule, limits, content)
 	pool  []*buffer
 	bag   []bagItem
 	store []Record
 	clean bool
 	stop  bool
+
+	memoKey string
+}
+
+// configKey captures every package setting a parser's outcome may depend on.
+func configKey() string {
+	return fmt.Sprintf("%d/%d/%d/%d/%d/%d/%d", date.MaxInputLength, roman.MaxInputLength, sem.MaxInputLength, size.MaxInputLength, uu.MaxInputLength, int(size.DefaultRule), size.MaxObjectKeys)
 }
 
 func deep(v interface{}) interface{} {
@@ -287,7 +301,7 @@ func (h *hist) violate(inv, key, detail string) bool {
 func (Prop) Run(t *core.Tape, o core.RunOpts) *core.Result {
 	restoreGlobals()
 	defer restoreGlobals()
-	h := &hist{t: t, o: o, res: core.NewResult(), hash: core.NewHash(), class: core.NewHash()}
+	h := &hist{t: t, o: o, res: core.NewResult(), hash: core.NewHash(), class: core.NewHash(), memo: map[string]memoEntry{}}
 	res := h.res
 	mode := t.Choose(3) // 0 = clean (no faults), 1, 2 = fault-injecting
 	h.clean = mode == 0
@@ -678,6 +692,12 @@ func (h *hist) opParse() {
 	rec := h.pickRecord(pe.ty)
 	fault := h.pickFault()
 	content := h.readRecord(pe.ty, fault, rec)
+	h.parseContent(pe, rule, content, fault)
+}
+
+func (h *hist) parseContent(pe parserEntry, rule int, content []byte, fault int) {
+	h.memoKey = fmt.Sprintf("%s/%d/%s", pe.name, rule, configKey())
+	defer func() { h.memoKey = "" }()
 	in, bb, nbb := h.makeInputs(content)
 	preIn := append([]byte(nil), content...)
 	out := pe.call(in, rule)
@@ -739,6 +759,21 @@ func (h *hist) afterParsers(name, extra string, out [4]pres, preIn []byte, in *i
 			}
 		}
 	}
+	// H: the outcome depends only on (entry, rule, configuration, content) - not on earlier
+	// calls, and not on what the caller did to earlier buffers
+	if h.memoKey != "" {
+		key := h.memoKey + "\x00" + string(preIn)
+		if m, ok := h.memo[key]; ok {
+			h.res.Probes.Inc("same_content_parsed_again")
+			if m.val != out[0].val || m.errText != out[0].errText {
+				if h.violate("H-history-dependence", name, fmt.Sprintf("%s %s on %q gave (%s, %q) at op %d of this history and gives (%s, %q) now, under the same configuration: the result depends on earlier calls or on what the caller did to earlier buffers", name, extra, clip(preIn), showVal(m.val), m.errText, m.step, showVal(out[0].val), out[0].errText)) {
+					return
+				}
+			}
+		} else if len(h.memo) < 256 {
+			h.memo[key] = memoEntry{deep(out[0].val), out[0].errText, h.step}
+		}
+	}
 	h.hash.AddString(out[0].errText)
 	hashVal(&h.hash, out[0].val)
 	if out[0].err != nil {
@@ -769,6 +804,25 @@ func (h *hist) opPair() {
 	ra, rb := h.pickRecord(TSem), h.pickRecord(TSem)
 	fa, fb := h.pickFault(), h.pickFault()
 	ca, cb := h.readRecord(TSem, fa, ra), h.readRecord(TSem, fb, rb)
+	if t.Bool(1, 3) {
+		// related arguments: the same text, or the same text with the tag prefix toggled
+		cb = append([]byte(nil), ca...)
+		switch t.Choose(3) {
+		case 1:
+			if len(cb) > 0 && cb[0] == 'v' {
+				cb = cb[1:]
+			} else {
+				cb = append([]byte{'v'}, cb...)
+			}
+		case 2:
+			if len(ca) > 0 && ca[0] != 'v' {
+				ca = append([]byte{'v'}, ca...)
+			}
+		}
+		h.res.Probes.Inc("pair_related_arguments")
+	}
+	h.memoKey = fmt.Sprintf("%s/%s/%q", pe.name, configKey(), cb)
+	defer func() { h.memoKey = "" }()
 	ia, ba1, ba2 := h.makeInputs(ca)
 	ib, bb1, bb2 := h.makeInputs(cb)
 	preA, preB := append([]byte(nil), ca...), append([]byte(nil), cb...)
@@ -793,6 +847,7 @@ func (h *hist) opScribble() {
 		return
 	}
 	k := 1 + t.Choose(3)
+	var reparse []Record
 	for i := 0; i < k; i++ {
 		b := h.pool[t.Choose(len(h.pool))]
 		d := b.arena[canaryLen : canaryLen+b.n]
@@ -808,7 +863,20 @@ func (h *hist) opScribble() {
 				d[j] = byte(w >> 56)
 			}
 		case 2:
+			// another record: preferably one of the same length that this history has
+			// already seen (the caller reading the next record into its buffer)
 			r := genRecord(t, t.Choose(NumTypes)).Bytes
+			var same []int
+			for k, sr := range h.store {
+				if len(sr.Bytes) == len(d) && len(d) > 0 {
+					same = append(same, k)
+				}
+			}
+			if len(same) > 0 {
+				sr := h.store[same[t.Choose(len(same))]]
+				r = sr.Bytes
+				reparse = append(reparse, sr)
+			}
 			for j := range d {
 				if len(r) > 0 {
 					d[j] = r[j%len(r)]
@@ -829,6 +897,22 @@ func (h *hist) opScribble() {
 		}
 	}
 	h.checkModels("after scribble")
+	// the buffer now holds another record: parse that record's content again (a library that
+	// kept a reference to the old buffer would answer from it)
+	for _, sr := range reparse {
+		if h.stop {
+			return
+		}
+		var cands []parserEntry
+		for _, pe := range parserEntries {
+			if pe.ty == sr.Type {
+				cands = append(cands, pe)
+			}
+		}
+		pe := cands[t.Choose(len(cands))]
+		h.res.Probes.Inc("reparse_after_scribble")
+		h.parseContent(pe, pe.rules[0], append([]byte(nil), sr.Bytes...), FIntact)
+	}
 }
 
 // opSetLimit: the package's input limit changes mid-history.
